@@ -1,6 +1,37 @@
 import Driver.Util
+import Sqfs.Spec.TarNumber
 namespace Driver.C04
-/-- stub: the model driver for C04 is not built yet -/
+open Sqfs.Tar
+
+def showNum : Option Nat → String
+  | none => "err"
+  | some v => s!"ok {v}"
+
+def withHex (h : String) (f : Bytes → String) : String :=
+  match fromHex h with
+  | some b => f b
+  | none => "bad-op"
+
+def step (line : String) : String :=
+  match words line with
+  | ["rn", h] => withHex h fun b => if b.isEmpty then "bad-op" else showNum (readNumber b)
+  | ["rncur", h] => withHex h fun b => if b.isEmpty then "bad-op" else showNum (readNumberCur b)
+  | ["rnspec", h] => withHex h fun b => if b.isEmpty then "bad-op" else showNum (specNumber b)
+  | ["wn", v, w] =>
+    match v.toNat?, w.toNat? with
+    | some v, some w => if 2 ≤ w ∧ w ≤ 21 ∧ v < U64 then toHexTok (writeNumber v w) else "bad-op"
+    | _, _ => "bad-op"
+  | ["wns", v, w] =>
+    match v.toInt?, w.toNat? with
+    | some v, some w =>
+      if 2 ≤ w ∧ w ≤ 21 ∧ -9223372036854775808 ≤ v ∧ v < 9223372036854775808 then toHexTok (writeNumberSigned v w) else "bad-op"
+    | _, _ => "bad-op"
+  | ["ck", h] => withHex h fun b => if b.length = 512 then toString (computeChecksum b) else "bad-op"
+  | ["ckv", h] => withHex h fun b => if b.length = 512 then (if isChecksumValid b then "1" else "0") else "bad-op"
+  | ["upd", h] => withHex h fun b => if b.length = 512 then toHexTok (updateChecksum b) else "bad-op"
+  | _ => "bad-op"
+
 def run (_args : List String) : IO Unit := do
-  IO.eprintln "sqfsmodel: model C04 not built yet"
+  lineLoop (← IO.getStdin) (← IO.getStdout) step
+
 end Driver.C04
